@@ -6,6 +6,7 @@ from vlib import combine
 
 if __name__ == "__main__":
     import checks.c12_adm as adm
+    import checks.c12_cw as cw
     import checks.c12_mip as mip
 
-    sys.exit(combine.main("C12", [("sym", adm), ("mip", mip)]))
+    sys.exit(combine.main("C12", [("sym", adm), ("sym", cw), ("mip", mip)]))
